@@ -198,10 +198,13 @@ theorem multi_returns_ok {rs} (hr : mrun cs (minit cs orders pre) mevs = some m)
     (∀ k i, (k, i) ∈ rs → k < cs.length) :=
   PfC11.multi_returns_ok hr hret
 
-/-- An error is returned only if some set's quorum read returned that error. -/
+/-- An error is returned only if some set's quorum read returned that error, and it is the
+**first** error: every worker that finished before that set's worker had returned results. -/
 theorem multi_returns_err {k e} (hr : mrun cs (minit cs orders pre) mevs = some m)
-    (hret : m.ret = some (.error (k, e))) : k < cs.length ∧ (m.sets k).main = .retErr e :=
-  PfC11.multi_returns_err hr hret
+    (hret : m.ret = some (.error (k, e))) :
+    k < cs.length ∧ (m.sets k).main = .retErr e ∧
+    ∃ before after, m.joined = before ++ k :: after ∧ ∀ k', k' ∈ before → ∃ rs, (m.sets k').main = .retOk rs :=
+  PfC11.multi_returns_first_err hr hret
 
 /-- After a successful return, once every tracked callback has called its cancel function
 (`inflight = []`), the workers' context and with it every callback context is cancelled. -/
@@ -209,16 +212,18 @@ theorem multi_ok_workers_ctx {rs} (hr : mrun cs (minit cs orders pre) mevs = som
     (hinf : m.inflight = []) : m.workersCanc = true ∧ ∀ k j, (m.sets k).ctx j = true :=
   PfC11.multi_ok_workers_ctx hr hret hinf
 
-/-- **Partial** (guard: the multi-set call returns results). Then every successful result of a set
-that is over is returned or cleaned up exactly once.
-
-The full statement — also when the multi-set call returns an error — is FALSE for the code as it
-is: see `multi_error_drops_results_witness`. -/
-theorem multi_cleanup_partial {rs} (hr : mrun cs (minit cs orders pre) mevs = some m)
-    (hret : m.ret = some (.ok rs)) (k : Nat) (c : Cfg) (hc : cs[k]? = some c) (hfin : final c (m.sets k) = true) :
+/-- **Cleanup exactly once, multi-set variant** — full statement, for the code with the fix
+84eb9e2 (`cleanupFunc` is called for the accumulated results before the first error is returned).
+Once the multi-set call has returned (results *or* an error) and set `k` is over, every successful
+result of set `k` is either among the returned results (`mreturned`), or was handed to the cleanup
+callback exactly once — by set `k`'s own quorum read (`(m.sets k).cleaned`) or by the multi-set
+function (`m.mcleaned`). -/
+theorem multi_cleanup (hr : mrun cs (minit cs orders pre) mevs = some m) (hret : m.ret.isSome = true)
+    (k : Nat) (c : Cfg) (hc : cs[k]? = some c) (hfin : final c (m.sets k) = true) :
     ∀ i, i < c.n → (i, Res.ok) ∈ (m.sets k).fin →
-      (((k, i) ∈ rs ∧ i ∉ (m.sets k).cleaned) ∨ ((k, i) ∉ rs ∧ (m.sets k).cleaned.count i = 1)) :=
-  PfC11.multi_cleanup_partial hr hret k c hc hfin
+      (((k, i) ∈ mreturned m ∧ i ∉ (m.sets k).cleaned ∧ (k, i) ∉ m.mcleaned) ∨
+       ((k, i) ∉ mreturned m ∧ (m.sets k).cleaned.count i + m.mcleaned.count (k, i) = 1)) :=
+  PfC11.multi_cleanup hr hret k c hc hfin
 
 /-- one instance, no tolerance. -/
 def wCfg : Cfg :=
@@ -233,19 +238,26 @@ def wEvs : List MEv :=
 
 def retErrOf (m : MSt) : Option (Nat × ErrKind) := match m.ret with | some (.error ke) => some ke | _ => none
 
-/-- **Witness of the finding**: the multi-set call returns set 1's error; set 0's `DoUntilQuorum`
-had returned the successful result of its instance 0 … -/
-theorem multi_error_drops_results_witness :
-    (mrun [wCfg, wCfg] (minit [wCfg, wCfg] [[], []] false) wEvs).map (fun m => (retErrOf m, (m.sets 0).main)) =
-      some (some (1, .inst 0), .retOk [0]) := by decide +kernel
+/- History. Before the fix 84eb9e2 the statement above was FALSE on the error return; the model of
+the unfixed code had the witnesses
 
-/-- … which is a successful result (`(0, ok) ∈ fin`), is not returned by the multi-set call, and was
-never handed to the cleanup callback although everything is over (`final` for both sets; its
-context is cancelled). -/
-theorem multi_error_drops_results_witness_cleanup :
-    (mrun [wCfg, wCfg] (minit [wCfg, wCfg] [[], []] false) wEvs).map
-      (fun m => ((m.sets 0).fin, (m.sets 0).cleaned, final wCfg (m.sets 0) && final wCfg (m.sets 1), (m.sets 0).ctx 0)) =
-      some ([(0, .ok)], [], true, true) := by decide +kernel
+  theorem multi_error_drops_results_witness :
+      (mrun [wCfg, wCfg] (minit [wCfg, wCfg] [[], []] false) wEvs).map (fun m => (retErrOf m, (m.sets 0).main)) =
+        some (some (1, .inst 0), .retOk [0])
+  theorem multi_error_drops_results_witness_cleanup :
+      (mrun [wCfg, wCfg] (minit [wCfg, wCfg] [[], []] false) wEvs).map
+        (fun m => ((m.sets 0).fin, (m.sets 0).cleaned, final wCfg (m.sets 0) && final wCfg (m.sets 1), (m.sets 0).ctx 0)) =
+        some ([(0, .ok)], [], true, true)
+
+(set 0's successful result neither returned nor cleaned up although everything is over), and only
+`multi_cleanup_partial` (guard: the call returns results) was provable. The same schedule on the
+model of the fixed code is the non-vacuity example below: the result is now cleaned by the
+multi-set function. -/
+example : (mrun [wCfg, wCfg] (minit [wCfg, wCfg] [[], []] false) wEvs).map (fun m => (retErrOf m, (m.sets 0).main)) =
+    some (some (1, .inst 0), .retOk [0]) := by decide +kernel
+example : (mrun [wCfg, wCfg] (minit [wCfg, wCfg] [[], []] false) wEvs).map
+    (fun m => ((m.sets 0).cleaned, m.mcleaned, final wCfg (m.sets 0) && final wCfg (m.sets 1))) =
+    some ([], [(0, 0)], true) := by decide +kernel
 
 end multi
 
